@@ -690,12 +690,84 @@ pub struct C18 {
     fin: Vec<BTreeMap<u64, (u128, u128)>>,
 }
 
-#[derive(serde::Deserialize)]
+/// A stored reserve snapshot, recognised by shape and not by key or field names: a JSON object (at any nesting
+/// depth of any stored value) whose fields are all scalars, without booleans or non-numeric strings, with two or
+/// three unsigned decimal strings (the reserves, possibly a nanosecond time) and exactly one integer that is a block
+/// height of this run (deployment height ..= current height).
 struct RawSnap {
-    quote_asset_reserve: cosmwasm_std::Uint128,
-    base_asset_reserve: cosmwasm_std::Uint128,
-    timestamp: cosmwasm_std::Timestamp,
     block_height: u64,
+    values: Vec<u128>,
+}
+
+impl RawSnap {
+    fn holds(&self, q: u128, b: u128) -> bool {
+        self.values.contains(&q) && self.values.contains(&b)
+    }
+}
+
+fn find_raw_snaps(v: &serde_json::Value, lo: u64, hi: u64, out: &mut Vec<RawSnap>) {
+    match v {
+        serde_json::Value::Array(a) => a.iter().for_each(|x| find_raw_snaps(x, lo, hi, out)),
+        serde_json::Value::Object(m) => {
+            let mut strings: Vec<u128> = vec![];
+            let mut heights: Vec<u64> = vec![];
+            let mut scalar_only = true;
+            for (_k, x) in m {
+                match x {
+                    serde_json::Value::String(t) => match t.parse::<u128>() {
+                        Ok(n) => strings.push(n),
+                        Err(_) => scalar_only = false,
+                    },
+                    serde_json::Value::Number(n) => {
+                        if let Some(u) = n.as_u64() {
+                            if u >= lo && u <= hi {
+                                heights.push(u);
+                            }
+                        }
+                    }
+                    serde_json::Value::Object(_) | serde_json::Value::Array(_) => {
+                        scalar_only = false;
+                        find_raw_snaps(x, lo, hi, out);
+                    }
+                    _ => scalar_only = false,
+                }
+            }
+            if scalar_only && heights.len() == 1 && (strings.len() == 2 || strings.len() == 3) && m.len() <= 5 {
+                out.push(RawSnap { block_height: heights[0], values: strings });
+            }
+        }
+        _ => {}
+    }
+}
+
+/// The time-weighted average of one price per block (the block's final spot price, in effect from the block's time
+/// on) over `[now - iv, now]`, or over the whole history when that is shorter: the reading of "TWAP computed from at
+/// most one snapshot per block that reflects the block's final reserves". `None` when it is undefined (zero-length
+/// history, overflow).
+fn reference_twap(tl: &[(u64, u64, u128)], now: u64, iv: u64) -> Option<u128> {
+    let n = tl.len();
+    let base = now.checked_sub(iv)?;
+    let latest = tl[n - 1];
+    if n == 1 || latest.1 <= base {
+        return Some(latest.2);
+    }
+    let mut prev = latest.1;
+    let mut period = now.checked_sub(prev)?;
+    let mut acc = latest.2.checked_mul(period as u128)?;
+    for k in (0..n - 1).rev() {
+        let s = tl[k];
+        if s.1 <= base {
+            acc = acc.checked_add(s.2.checked_mul((prev - base) as u128)?)?;
+            return Some(acc / iv as u128);
+        }
+        acc = acc.checked_add(s.2.checked_mul((prev.checked_sub(s.1)?) as u128)?)?;
+        period += prev - s.1;
+        prev = s.1;
+    }
+    if period == 0 {
+        return None;
+    }
+    Some(acc / period as u128)
 }
 
 impl Monitor for C18 {
@@ -778,26 +850,40 @@ impl Monitor for C18 {
                 if lo == hi {
                     r.count("twap-flat-windows");
                 }
+                // R4: the value itself, against the time-weighted average of the monitor's one-price-per-block
+                // timeline (one raw unit of slack per segment for a different but legitimate rounding order)
+                if iv > 0 {
+                    if let Some(want) = reference_twap(tl, now, iv) {
+                        r.count("R4-twap-reference-comparisons");
+                        if lo != hi {
+                            r.count("R4-twap-reference-comparisons-over-changing-prices");
+                        }
+                        let slack = n_in as u128 + 1;
+                        if twap.abs_diff(want) > slack {
+                            r.violation(
+                                "C18",
+                                "R4-twap-not-the-average-of-final-block-prices",
+                                format!("R4|{}|segments={}", class, (n_in as u32).min(3)),
+                                format!("vamm{} TWAP over {}s = {} but the time-weighted average of the {} end-of-block prices in the window is {}", i, iv, twap, n_in, want),
+                                st.seq,
+                            );
+                        }
+                    }
+                }
                 if n_in > 1 && lo != hi {
                     r.sample_once(&format!("twap|{}", class), json!({"vamm": i, "interval": iv, "twap": twap.to_string(), "min": lo.to_string(), "max": hi.to_string(), "segments": n_in}));
                 }
             }
             // raw snapshot discipline
             let dump = w.raw_dump(&w.vamms[i]);
-            let mut heights = vec![];
-            let mut stored: Vec<(u64, u128, u128)> = vec![];
-            let mut latest: Option<RawSnap> = None;
-            // snapshot records are recognised by shape (any key), the latest one is the last in key order among
-            // those of the highest block
+            let mut found: Vec<RawSnap> = vec![];
             for (_k, v) in dump {
-                if let Ok(s) = serde_json::from_slice::<RawSnap>(&v) {
-                    heights.push(s.block_height);
-                    stored.push((s.block_height, s.quote_asset_reserve.u128(), s.base_asset_reserve.u128()));
-                    if latest.as_ref().map(|l| s.block_height >= l.block_height).unwrap_or(true) {
-                        latest = Some(s);
-                    }
+                if let Ok(j) = serde_json::from_slice::<serde_json::Value>(&v) {
+                    find_raw_snaps(&j, self.tl[i][0].0, st.post.height, &mut found);
                 }
             }
+            let heights: Vec<u64> = found.iter().map(|s| s.block_height).collect();
+            let hmax = heights.iter().max().cloned();
             if heights.is_empty() {
                 r.inconclusive("no raw reserve snapshots found".into());
                 continue;
@@ -811,21 +897,21 @@ impl Monitor for C18 {
                 r.violation("C18", "R2-too-many-snapshots", "R2|count".into(), format!("vamm{} has {} snapshots for {} blocks with swaps", i, heights.len(), self.change_blocks[i]), st.seq);
             }
             // every block in which the vAMM traded has exactly one snapshot, holding that block's final reserves
-            for (h, q, b) in &stored {
-                match self.fin[i].get(h) {
-                    Some((fq, fb)) if fq == q && fb == b => {}
-                    Some((fq, fb)) => r.violation("C18", "R2-snapshot-not-final-reserves-of-its-block", "R2|not-final".into(), format!("vamm{} snapshot of block {} holds ({}, {}) but the block ended with ({}, {})", i, h, q, b, fq, fb), st.seq),
+            for sn in &found {
+                let h = sn.block_height;
+                match self.fin[i].get(&h) {
+                    Some((fq, fb)) if sn.holds(*fq, *fb) => {}
+                    Some((fq, fb)) => r.violation("C18", "R2-snapshot-not-final-reserves-of-its-block", "R2|not-final".into(), format!("vamm{} snapshot of block {} holds {:?} but the block ended with ({}, {})", i, h, sn.values, fq, fb), st.seq),
                     None => r.violation("C18", "R2-snapshot-of-a-block-without-trade", "R2|phantom".into(), format!("vamm{} has a snapshot for block {} in which it did not trade", i, h), st.seq),
                 }
             }
-            let have: BTreeSet<u64> = stored.iter().map(|x| x.0).collect();
+            let have: BTreeSet<u64> = heights.iter().cloned().collect();
             if let Some(missing) = self.fin[i].keys().find(|h| !have.contains(h)) {
-                r.violation("C18", "R2-block-without-snapshot", "R2|missing".into(), format!("vamm{} traded in block {} but has no snapshot for it ({} snapshots, {} blocks with trades)", i, missing, stored.len(), self.fin[i].len()), st.seq);
+                r.violation("C18", "R2-block-without-snapshot", "R2|missing".into(), format!("vamm{} traded in block {} but has no snapshot for it ({} snapshots, {} blocks with trades)", i, missing, found.len(), self.fin[i].len()), st.seq);
             }
-            if let Some(l) = latest {
-                let _ = l.timestamp;
-                if l.quote_asset_reserve.u128() != st.post.vamms[i].q || l.base_asset_reserve.u128() != st.post.vamms[i].b {
-                    r.violation("C18", "R2-latest-snapshot-stale", "R2|stale".into(), format!("vamm{} latest snapshot ({}, {}) != reserves ({}, {})", i, l.quote_asset_reserve, l.base_asset_reserve, st.post.vamms[i].q, st.post.vamms[i].b), st.seq);
+            for l in found.iter().filter(|s| Some(s.block_height) == hmax) {
+                if !l.holds(st.post.vamms[i].q, st.post.vamms[i].b) {
+                    r.violation("C18", "R2-latest-snapshot-stale", "R2|stale".into(), format!("vamm{} latest snapshot {:?} != reserves ({}, {})", i, l.values, st.post.vamms[i].q, st.post.vamms[i].b), st.seq);
                 }
             }
         }
